@@ -194,7 +194,7 @@ func genC06(t *rapid.T) any {
 	}
 	if c.Mode == "distinct" {
 		if rapid.IntRange(0, 2).Draw(t, "haswhere") == 0 {
-			c.Where = genPred(t, tb, &PredSpec{Core: true}, 1, "w")
+			c.Where = genPred(t, tb, &PredSpec{Core: rapid.Bool().Draw(t, "wcore")}, 1, "w")
 		}
 		c.SQL = "SELECT DISTINCT " + sel + " FROM t"
 		if c.Where != nil {
@@ -219,7 +219,7 @@ func genC06(t *rapid.T) any {
 		}
 		br := UnionBranch{Table: key, All: rapid.Bool().Draw(t, fmt.Sprintf("b%d.all", b))}
 		if rapid.IntRange(0, 3).Draw(t, fmt.Sprintf("b%d.haswhere", b)) == 0 {
-			br.Where = genPred(t, tb, &PredSpec{Core: true}, 1, fmt.Sprintf("b%d.w", b))
+			br.Where = genPred(t, tb, &PredSpec{Core: rapid.Bool().Draw(t, fmt.Sprintf("b%d.wcore", b))}, 1, fmt.Sprintf("b%d.w", b))
 		}
 		if b > 0 && c.Agg == "" && rapid.IntRange(0, 4).Draw(t, fmt.Sprintf("b%d.rename", b)) == 0 {
 			br.Suffix = rapid.SampledFrom([]string{"_2", "x"}).Draw(t, fmt.Sprintf("b%d.suffix", b))
